@@ -410,44 +410,17 @@ func init() {
 		}
 		expr := c05src(nameExpr)
 		strips := false
+		// the VALUE of that expression (x_c05_name.go): the host field as it stands, or the host with the port
+		// removed by net.SplitHostPort (the host itself when the split fails) — whether computed through a local
+		// variable or in a helper of the package
+		vals := c05fieldValue(st, "ServerName")
 		switch {
-		case expr == "cc.host":
+		case len(vals) == 1 && vals[0].pc == c05pcAny && vals[0].v == c05nvHost:
 			strips = false
+		case len(vals) == 1 && vals[0].pc == c05pcAny && vals[0].v == c05nvStrip:
+			strips = true
 		default:
-			// recognised repair shape: a local variable initialised from cc.host and overwritten by the
-			// host part of net.SplitHostPort(<that variable or cc.host>) when the split succeeds
-			id, ok := nameExpr.(*ast.Ident)
-			if !ok {
-				fail("C05: unrecognised ServerName expression %q in startTls", expr)
-				break
-			}
-			initFromHost, splitOK := false, false
-			c05walk(st.Body, func(as *ast.AssignStmt, g []string) {
-				if len(as.Lhs) == 1 && c05src(as.Lhs[0]) == id.Name && len(as.Rhs) == 1 && len(g) == 0 && c05src(as.Rhs[0]) == "cc.host" {
-					initFromHost = true
-				}
-				// h, _, err := net.SplitHostPort(x)   (as the Init of `if …; err == nil { name = h }`)
-				if len(as.Rhs) == 1 && len(as.Lhs) == 3 {
-					if call, ok := as.Rhs[0].(*ast.CallExpr); ok && c05src(call.Fun) == "net.SplitHostPort" && len(call.Args) == 1 {
-						a := c05src(call.Args[0])
-						if a == "cc.host" || a == id.Name {
-							hv := c05src(as.Lhs[0])
-							// find `id = hv` guarded by err == nil
-							c05walk(st.Body, func(as2 *ast.AssignStmt, g2 []string) {
-								if len(as2.Lhs) == 1 && c05src(as2.Lhs[0]) == id.Name && len(as2.Rhs) == 1 && c05src(as2.Rhs[0]) == hv &&
-									len(g2) == 1 && g2[0] == "err == nil" {
-									splitOK = true
-								}
-							})
-						}
-					}
-				}
-			})
-			if initFromHost && splitOK {
-				strips = true
-			} else {
-				fail("C05: unrecognised derivation of ServerName (%q) in startTls", expr)
-			}
+			fail("C05: unrecognised derivation of ServerName (%q) in startTls", expr)
 		}
 		fmt.Fprintf(b, "/-- client.go startTls: right-hand side of `tlsConfig.ServerName = …` -/\ndef startTlsServerNameExpr : String := %s\n", leanStr05(expr))
 		fmt.Fprintf(b, "/-- true iff that value is cc.host with the port removed by net.SplitHostPort (cc.host itself when it has no port) -/\ndef startTlsStripsPort : Bool := %v\n\n", strips)
